@@ -1,6 +1,8 @@
 package opset13
 
 import (
+	"math"
+
 	"github.com/advancedclimatesystems/gonnx/onnx"
 	"github.com/advancedclimatesystems/gonnx/ops"
 	"gorgonia.org/tensor"
@@ -56,6 +58,12 @@ func (s *Slice) Apply(inputs []tensor.Tensor) ([]tensor.Tensor, error) {
 
 	if len(ends) != len(starts) || len(axes) != len(starts) || len(steps) != len(starts) {
 		return nil, ops.ErrInvalidInput("starts, ends, axes and steps must have the same length", s)
+	}
+
+	// Negative steps (a reversed selection) are not supported, and the tensor library
+	// neither refuses nor reverses them, hence they are refused here.
+	if !ops.AllInRange(steps, 1, math.MaxInt) {
+		return nil, ops.ErrInvalidInput("steps must be positive, negative steps are not supported", s)
 	}
 
 	nDims := len(data.Shape())
